@@ -445,3 +445,94 @@ def rule_copy_interlace_pair(ctx):
                 "/".join(sorted(ri)), "/".join(sorted(wi))))
     ctx.floor("RWIL", 1, n, "(hrepack routines that read and write Vdata records)")
     return n
+
+
+CREATE_TYPE_ARG = {"SDcreate": 2, "GRcreate": 3, "SDsetdimscale": 2, "SDsetattr": 2, "GRsetattr": 2, "VSfdefine": 2}
+INFO_CALLS = {"SDgetinfo", "GRgetiminfo", "SDdiminfo", "SDattrinfo", "GRattrinfo", "VFfieldtype", "Vattrinfo", "VSattrinfo"}
+
+
+def rule_created_with_read_type(ctx):
+    """CREATETYPE (C18): an object keeps its number type through repacking — including the flag bits (little-endian, native) that are
+    part of the type.  Every call that creates the copy (SDcreate, GRcreate, SDsetdimscale, the attribute setters) must be handed
+    the type exactly as the info call of the input object delivered it: the variable whose address went to SDgetinfo /
+    GRgetiminfo / SDdiminfo / ..attrinfo in the same routine, or a parameter that carries it.  A local derived from it
+    (`dtype & DFNT_MASK`, computed to look up the element size) silently turns a little-endian object into a big-endian one."""
+    prog = ctx.prog
+    n = 0
+    occ = {}
+    for f in prog.funcs:
+        if not f.rel.startswith("mfhdf/hrepack/") or f.rel.endswith("hrepacktst.c"):
+            continue
+        params = {q[0] for q in f.params}
+        outs = set()
+        derived = {}
+        for _b, _i, _s, x in f.nodes(True):
+            if x[0] == "call" and x[1] in INFO_CALLS:
+                for a in x[3]:
+                    a = strip(a)
+                    if kind(a) == "addr" and kind(strip(a[1])) == "var":
+                        outs.add(strip(a[1])[1])
+            elif x[0] == "asg" and x[1] == "=" and kind(strip(x[2])) == "var":
+                r = strip(x[3])
+                if kind(r) == "call" and r[1] in INFO_CALLS:
+                    outs.add(strip(x[2])[1])
+                else:
+                    derived.setdefault(strip(x[2])[1], []).append(x[3])
+        for _b, _i, s, c in f.calls():
+            if c[1] not in CREATE_TYPE_ARG or len(c[3]) <= CREATE_TYPE_ARG[c[1]]:
+                continue
+            a = strip(c[3][CREATE_TYPE_ARG[c[1]]])
+            n += 1
+            key = "CREATETYPE:%s:%s" % (f.name, c[1])
+            occ[key] = occ.get(key, 0) + 1
+            if occ[key] > 1:
+                key += "#%d" % occ[key]
+            line = s.get("l", f.line)
+            if kind(a) == "int":
+                ctx.excepted("CREATETYPE", key, f.where(line), "a constant type: an object hrepack itself defines, not a copy")
+            elif kind(a) == "var" and (a[1] in outs or (a[1] in params and a[1] not in derived)):
+                ctx.holds("CREATETYPE", key, f.where(line), "`%s` is the type as the info call delivered it" % a[1], nontrivial=True)
+            elif kind(a) == "mem":
+                ctx.holds("CREATETYPE", key, f.where(line), "`%s` is a stored copy of the type" % render(a), nontrivial=False)
+            else:
+                why = ("`%s` is computed in this routine (`%s`)" % (a[1], render(derived[a[1]][0])[:50])) if kind(a) == "var" and a[1] in derived else "`%s` is not the variable an info call filled" % render(a)[:40]
+                ctx.violated("CREATETYPE", key, f.where(line), "%s() is given a number type that is not the one read from the input object: %s — flag bits of the type (little-endian, native) are lost in the copy" % (c[1], why))
+    ctx.floor("CREATETYPE", 6, n, "(creating calls that take a number type)")
+    return n
+
+
+PAIR_FUNCS = {"copy_vgroup_attrs": (0, 1), "copy_vg_an": (2, 3), "copy_vs_an": (2, 3), "copy_vdata_attribute": (0, 1),
+              "copy_sds_attrs": (0, 1), "copy_gr_attrs": (0, 1)}
+
+
+def rule_copy_pairs_agree(ctx):
+    """COPYPAIR (C18): the attributes and annotations of an object are copied by several helper calls, each given the input object and
+    the output object it belongs to.  Inside one routine all helpers that are given the same input object must be given the same
+    output object: a helper handed the *parent's* output id attaches the child's attributes to the parent."""
+    prog = ctx.prog
+    n = 0
+    for f in prog.funcs:
+        if not f.rel.startswith("mfhdf/hrepack/"):
+            continue
+        pairs = {}
+        for _b, _i, s, c in f.calls():
+            if c[1] in PAIR_FUNCS and len(c[3]) > max(PAIR_FUNCS[c[1]]):
+                a, b = (strip(c[3][k]) for k in PAIR_FUNCS[c[1]])
+                if kind(a) == "var" and kind(b) == "var":
+                    pairs.setdefault(a[1], []).append((b[1], c[1], s.get("l", f.line)))
+        for inv, outs in sorted(pairs.items()):
+            if len(outs) < 2:
+                continue
+            n += 1
+            key = "COPYPAIR:%s:%s" % (f.name, inv)
+            names = {}
+            for o, cn, line in outs:
+                names.setdefault(o, []).append((cn, line))
+            if len(names) == 1:
+                ctx.holds("COPYPAIR", key, f.where(outs[0][2]), "all %d helper calls for `%s` write to `%s`" % (len(outs), inv, outs[0][0]), nontrivial=True)
+            else:
+                minority = min(names.items(), key=lambda kv: len(kv[1]))
+                ctx.violated("COPYPAIR", key, f.where(minority[1][0][1]), "%s() copies from `%s` into `%s` while the other helper calls for `%s` write to `%s`: that part of the object ends up on a different output object" %
+                             (minority[1][0][0], inv, minority[0], inv, ", ".join(sorted(set(names) - {minority[0]}))))
+    ctx.floor("COPYPAIR", 3, n, "(input objects handed to more than one copy helper)")
+    return n
